@@ -129,3 +129,12 @@ Theorem C07_split_quote_after_blank_refuted :
             rdata r = [(lit "_split", VArr [VStr (lit "a"); VStr (lit """b"); VStr (lit "c"""); VStr (lit "d")])].
 Proof. eexists. split; [vm_compute; reflexivity|reflexivity]. Qed.
 Print Assumptions C07_split_quote_after_blank_refuted.
+
+(** KF-55 - "`from` reads another field instead of the line" stops at a field that an earlier stage auto-converted: of
+    the README's two example lines the one whose second word is a number is refused (one error line), the other is split *)
+Theorem C07_from_converted_field_refuted :
+  let q := [SParse (lit "* *") [lit "level"; lit "csv"] None false false; SSplit (lit ",") (Some (ECol (lit "csv") [])) None] in
+  let run := run_pipeline (fun _ => true) q [lit "WARN 100"; lit "INFO a,b"] in
+  (exists r, out run = Ok (ORows [r]) /\ get (lit "level") (rdata r) = Some (VStr (lit "INFO"))) /\ nerr run = 1%nat.
+Proof. cbv zeta. split; [eexists; split; vm_compute; reflexivity | vm_compute; reflexivity]. Qed.
+Print Assumptions C07_from_converted_field_refuted.
